@@ -4,6 +4,7 @@ from hypothesis import strategies as st
 
 from vlib.runner import part, Fail, Skip
 from vlib import refsim as R, strategies as S
+from vlib.stats import binomial_ok
 
 PROPERTY = "C01"
 RULE = ("Hypothesis-generated circuits over H,X,Y,Z,S,T,RX,RY,RZ,PHASE,CNOT,CX,CY,CZ,CH,CRX,CRY,CRZ,CPHASE,XX,SWAP,CSWAP "
@@ -13,12 +14,14 @@ RULE = ("Hypothesis-generated circuits over H,X,Y,Z,S,T,RX,RY,RZ,PHASE,CNOT,CX,C
         "Distinct = distinct canonical JSON of (part, circuit, initial state, mode).")
 ASSUMPTIONS = ["numpy linear algebra", "reference gate table in vlib/refsim.py (self-tested against scipy expm)",
                "only cirq and sympy backends are installed; qulacs/qiskit/qdk/stim clauses are not exercised",
-               "sampled mode is a statistical check at 6.5 sigma with pinned numpy seed"]
+               "sampled mode is a statistical check (exact two-sided binomial tail < 1e-12 per outcome) with pinned numpy seed"]
 SHARDS = {"quick": 8, "thorough": 16}
 
 
 def selftest():
     R.selftest()
+    from vlib import stats
+    stats.selftest()
 
 
 def nontrivial(case, psi):
@@ -157,8 +160,8 @@ def cirq_sampled(ctx):
             raise Fail(f"sampled counts sum to {tot}, expected {N}", sig="cirq:sampled-total")
         for i, pk in enumerate(p):
             f = freqs.get(R.bitstr(i, n), 0.0)
-            if abs(f - pk) > 6.5 * np.sqrt(pk * (1 - pk) / N) + 1.0 / N + 1e-9:
-                raise Fail(f"outcome {R.bitstr(i, n)}: frequency {f} vs p={pk} with N={N} (>6.5 sigma)", sig="cirq:sampled-dist")
+            if not binomial_ok(f * N, N, pk):
+                raise Fail(f"outcome {R.bitstr(i, n)}: frequency {f} vs p={pk} with N={N} (exact binomial tail < 1e-12)", sig="cirq:sampled-dist")
         return nontrivial(case, ref), labels(case) | {f"shots={N}"}
 
     ctx.search("cirq_sampled", cases(), body)
@@ -303,7 +306,7 @@ def shot_chunks(ctx):
             raise Fail(f"n_shots={N}: returned counts sum to {tot}", sig="cirq:sampled-total:chunk-boundary")
         for i in range(2):
             f = freqs.get(str(i), 0.0)
-            if abs(f - p[i]) > 6.5 * np.sqrt(p[i] * (1 - p[i]) / N) + 1.0 / N:
+            if not binomial_ok(f * N, N, p[i]):
                 raise Fail(f"n_shots={N}: frequency {f} vs p={p[i]}", sig="cirq:sampled-dist:chunk-boundary")
         return True, (f"shots={N}",)
 
